@@ -8,9 +8,10 @@
     the remaining text that lie behind the region.  A word is not replaced by an alias that is being
     processed (innermost or enclosing).
   * "If the value of the alias replacing the word ends in a blank, the shell shall check the next command
-    word for alias substitution": among the blanks skipped before a word there is the final blank of a value
-    that ends in a blank.
-    The word put in place of a replaced word inherits that status (`bp`).
+    word for alias substitution": the run of blank characters (and line continuations between tokens) that
+    immediately precedes the word contains the final blank of a value that ends in a blank.  This is one
+    flag (`tb`), updated character by character as text is read; replacing a word reads nothing, so the word
+    put in its place inherits the flag.
   * A word is a candidate only where the grammar reads a command name (`trans … = some true`), or the alias
     is global, or by the blank rule.  Which grammar position the next token is in is the same automaton
     `trans` as the model uses (it transcribes the parser, not the alias mechanism).
@@ -35,52 +36,70 @@ structure HState where
   active : List Region := []   -- aliases being processed, innermost first
   st : PState := .cmd0
   toks : List Kind := []
-  bp : Bool := false           -- the blank rule already applied to the word that was just replaced here
+  tb : Bool := false           -- the trailing run of blanks read so far holds the end of a blank-ending value
   deriving Repr
 
 /-- regions that contain the character which has `rem` characters (itself included) up to the end -/
 def activeAt (rs : List Region) (rem : Nat) : List Region := rs.filter (fun r => r.endRem < rem)
 
-/-- Is one of the first `k` characters (the skipped blanks) the final blank of a blank-ending value? -/
-def blankRule (rs : List Region) : Nat → List Char → Bool
-  | 0, _ => false
-  | _, [] => false
-  | k + 1, c :: t =>
-    (isBlank c &&
-      (match activeAt rs (t.length + 1) with
-       | r :: _ => r.eb && r.endRem == t.length
-       | [] => false))
-    || blankRule rs k t
+/-- Is the character with `rem` characters (itself included) up to the end the last character of the
+    innermost value it belongs to, and does that value end with a blank? -/
+def endsValue (rs : List Region) (rem : Nat) : Bool :=
+  match activeAt rs rem with
+  | r :: _ => r.eb && r.endRem + 1 == rem
+  | [] => false
+
+/-- Reads the first `k` characters of the remaining text and updates the flag: a blank keeps it (and sets it
+    when it ends a blank-ending value), a line continuation between tokens (`lcOk`) keeps it, anything else
+    clears it. -/
+def flagRun (rs : List Region) (lcOk : Bool) : Nat → Bool → List Char → Bool
+  | 0, b, _ => b
+  | _, b, [] => b
+  | k + 1, b, c :: t =>
+    if isBlank c then flagRun rs lcOk k (b || endsValue rs (t.length + 1)) t
+    else if lcOk && c == '\\' && t.head? == some '\n' then
+      match k, t with
+      | k' + 1, _ :: t' => flagRun rs lcOk k' b t'
+      | _, _ => b
+    else flagRun rs lcOk k false t
+
+/-- The alias (if any) that replaces the next word. -/
+def hcand (T : Table) (s : HState) : Option Alias :=
+  let k := skipLenC s.rest
+  let r := s.rest.drop k
+  let tok := lexTokC r
+  let here := activeAt s.active r.length
+  let blank := flagRun s.active true k s.tb s.rest
+  match (trans s.st tok.kind).sub, tok.kind with
+  | some cmd, .word (some name) _ =>
+    if here.any (fun x => x.name == name) then none else
+    match T.lookup name with
+    | some a => if cmd || a.global || blank then some a else none
+    | none => none
+  | _, _ => none
 
 def hstep (T : Table) (s : HState) : Option HState :=
-  let k := skipLen (plain s.rest)
+  let k := skipLenC s.rest
   let skipped := s.rest.take k
   match s.rest.drop k with
   | [] => none
-  | r@(_ :: _) =>
-    let tok := lexTok (plain r)
-    let n := max tok.len 1
-    let after := r.drop n
+  | c0 :: tl =>
+    let tok := lexTokC (c0 :: tl)
+    let n := tok.len - 1
+    let after := tl.drop n
     let d := trans s.st tok.kind
-    let here := activeAt s.active r.length
-    let blank := s.bp || blankRule s.active k s.rest
-    let cand : Option Alias :=
-      match d.sub, tok.kind with
-      | some cmd, .word (some name) _ =>
-        if here.any (fun x => x.name == name) then none else
-        match T.lookup name with
-        | some a => if cmd || a.global || blank then some a else none
-        | none => none
-      | _, _ => none
-    match cand with
+    let blank := flagRun s.active true k s.tb s.rest
+    match hcand T s with
     | some a =>
+      let here := activeAt s.active (tl.length + 1)
       let enclosing := here.map fun x => { x with endRem := min x.endRem after.length }
       some { out := skipped.reverse ++ s.out, rest := a.value ++ after,
              active := { name := a.name, endRem := after.length, eb := endsBlank a.value } :: enclosing,
-             st := d.onSub, toks := s.toks, bp := blank }
+             st := d.onSub, toks := s.toks, tb := blank }
     | none =>
-      some { out := (r.take n).reverse ++ skipped.reverse ++ s.out, rest := after,
-             active := activeAt s.active after.length, st := d.onTake, toks := tok.kind :: s.toks }
+      some { out := (tl.take n).reverse ++ c0 :: (skipped.reverse ++ s.out), rest := after,
+             active := activeAt s.active after.length, st := d.onTake, toks := tok.kind :: s.toks,
+             tb := flagRun s.active false (n + 1) blank (c0 :: tl) }
 
 def hrun (T : Table) : Nat → HState → HState
   | 0, s => s
